@@ -56,30 +56,34 @@ def run(ctx: Ctx) -> None:
         sgn = torch.randint(0, 2, t.shape, generator=g).to(t.dtype) * 2 - 1
         return t * (1 + eps * sgn)
 
-    def rounding_close(a: torch.Tensor, b: torch.Tensor, ref: Any, refp: Any, dt: torch.dtype, f32_internal: bool = False) -> bool:
+    def rounding_close(a: torch.Tensor, b: torch.Tensor, ref: Any, allow: float, dt: torch.dtype, f32_internal: bool = False) -> bool:
         """`a` (compiled) agrees with `b` (eager) to float rounding.  Directly within the dtype's tolerance; or - for
-        ill-conditioned results (e.g. the input gradient of a normalisation), where fused kernels legitimately round
-        differently - judged against the float64 evaluation `ref` of the same computation: a's error is at most 3x eager's
-        own error, plus the tolerance, plus 8x the change `|refp - ref|` that rounding the *inputs* to the dtype's
-        precision already causes (a cancellation-aware scale).  In float64 the second route exists only for callables
-        that compute internally in float32 (the library's rms), with float32 precision as the yardstick."""
+        ill-conditioned results (e.g. the input gradient of a normalisation, a difference of nearly equal terms), where
+        fused kernels legitimately round intermediates differently - judged against the float64 evaluation `ref` of the
+        same computation: a's error is at most 4x the larger of eager's own error here and eager's error on four
+        neighbouring inputs (`allow`, the rounding noise of this computation in this dtype), plus the tolerance.
+        In float64 the second route exists only for callables that compute internally in float32 (the library's rms):
+        there `allow` is the change a float32-level perturbation of the inputs causes."""
         if close(a, b, dt):
             return True
         if a.shape != b.shape or a.dtype != b.dtype:
             return False
         if dt == torch.float64:
-            if not f32_internal or refp is None:
+            if not f32_internal or allow is None:
                 return False
-            delta = float((refp.double() - b.double()).abs().max())
             scale = max(float(b.double().abs().max()), 1e-30)
-            return float((a.double() - b.double()).abs().max()) <= TOL["torch.float32"] * scale + 8 * delta
+            return float((a.double() - b.double()).abs().max()) <= TOL["torch.float32"] * scale + 8 * allow
         if ref is None or ref.shape != a.shape:
             return False
         ea = float((a.double() - ref.double()).abs().max())
         eb = float((b.double() - ref.double()).abs().max())
         scale = max(float(ref.double().abs().max()), 1e-30)
-        delta = float((refp.double() - ref.double()).abs().max()) if refp is not None and refp.shape == ref.shape else 0.0
-        return ea <= 3 * eb + TOL[str(dt)] * scale + 8 * delta
+        return ea <= 4 * max(eb, allow or 0.0) + TOL[str(dt)] * scale
+
+    def maxdiff(u: Any, v: Any) -> float:
+        if u is None or v is None or u.shape != v.shape:
+            return 0.0
+        return float((u.double() - v.double()).abs().max()) if u.numel() else 0.0
 
     def run_fn(fn: Callable, tensors: Dict[str, Any], diff: List[str], seed: int, up_dtype: Any = None, eps: float = 0.0):
         if eps:
@@ -122,23 +126,35 @@ def run(ctx: Ctx) -> None:
                     continue
                 none = (None, [None] * len(case.diff))
                 ref: Any = none
-                refp: Any = none
+                allow: Any = (None, [None] * len(case.diff))
                 random_op = (op == "dropout" and case.cfg.get("training") and case.cfg.get("p", 0) > 0) or \
                     (case.cfg.get("dropout_p", 0) or 0) > 0
                 f32i = op == "rms_norm"
                 if not random_op and (dt != torch.float64 or f32i):
                     try:
-                        b64 = {k: (v.double() if torch.is_tensor(v) and v.is_floating_point() else v) for k, v in base.items()}
-                        eps_ = float(torch.finfo(torch.float32 if dt == torch.float64 else dt).eps)
+                        isf = lambda v: torch.is_tensor(v) and v.is_floating_point()  # noqa: E731
+                        b64 = {k: (v.double() if isf(v) else v) for k, v in base.items()}
                         ref = run_fn(f, b64, case.diff, 5, up_dtype=dt)
-                        refp = run_fn(f, b64, case.diff, 5, up_dtype=dt, eps=eps_)
+                        if dt == torch.float64:
+                            rp = run_fn(f, b64, case.diff, 5, up_dtype=dt, eps=float(torch.finfo(torch.float32).eps))
+                            allow = (maxdiff(rp[0], want[0]), [maxdiff(u, v) for u, v in zip(rp[1], want[1])])
+                        else:
+                            no, ng = 0.0, [0.0] * len(case.diff)
+                            for j in range(4):
+                                pj = {k: (perturbed(v, float(torch.finfo(dt).eps), 50 + 7 * j + i_).to(dt) if isf(v) else v)
+                                      for i_, (k, v) in enumerate(b64.items())}
+                                wj = run_fn(f, pj, case.diff, 5)
+                                rj = run_fn(f, {k: (v.double() if isf(v) else v) for k, v in pj.items()}, case.diff, 5, up_dtype=dt)
+                                no = max(no, maxdiff(wj[0], rj[0]))
+                                ng = [max(g0, maxdiff(u, v)) for g0, u, v in zip(ng, wj[1], rj[1])]
+                            allow = (no, ng)
                     except Exception:
-                        ref, refp = none, none
-                if not rounding_close(got[0], want[0], ref[0], refp[0], dt, f32i):
+                        ref, allow = none, (None, [None] * len(case.diff))
+                if not rounding_close(got[0], want[0], ref[0], allow[0], dt, f32i):
                     ctx.violation(f"C20:{op}:output", "compiled output differs from eager", key,
                                   float((got[0].double() - want[0].double()).abs().max()))
-                for n, a, b, r64, r64p in zip(case.diff, got[1], want[1], ref[1], refp[1]):
-                    if (a is None) != (b is None) or (a is not None and not rounding_close(a, b, r64, r64p, dt, f32i)):
+                for n, a, b, r64, al in zip(case.diff, got[1], want[1], ref[1], allow[1]):
+                    if (a is None) != (b is None) or (a is not None and not rounding_close(a, b, r64, al, dt, f32i)):
                         ctx.violation(f"C20:{op}:grad:{n}", "compiled gradient differs from eager", {**key, "wrt": n},
                                       None if a is None or b is None else float((a.double() - b.double()).abs().max()))
 
@@ -191,28 +207,43 @@ def run(ctx: Ctx) -> None:
 
         want = fb(m)
         ref: Any = None
-        refp: Any = None
+        allow: Any = None
         f32i = any(isinstance(sm, uu.RMSNorm) for sm in m.modules())
         if dt != torch.float64 or f32i:
             try:
                 x64 = x.double() if x.is_floating_point() else x
-                eps_ = float(torch.finfo(torch.float32 if dt == torch.float64 else dt).eps)
                 ref = fb(copy.deepcopy(m).double(), x=x64)
-                refp = fb(copy.deepcopy(m).double(), x=x64, eps=eps_)
+                if dt == torch.float64:
+                    rp = fb(copy.deepcopy(m).double(), x=x64, eps=float(torch.finfo(torch.float32).eps))
+                    allow = (maxdiff(rp[0], want[0]), [maxdiff(u, v) for u, v in zip(rp[1], want[1])])
+                else:
+                    no, ng = 0.0, [0.0] * len(want[1])
+                    for j in range(4):
+                        mj = copy.deepcopy(m).double()
+                        with torch.no_grad():
+                            for i_, p_ in enumerate(mj.parameters()):
+                                p_.copy_(perturbed(p_, float(torch.finfo(dt).eps), 60 + 11 * j + i_))
+                        mj = mj.to(dt)
+                        xj = perturbed(x64, float(torch.finfo(dt).eps), 59 + j).to(dt) if x.is_floating_point() else x
+                        wj = fb(mj, x=xj)
+                        rj = fb(copy.deepcopy(mj).double(), x=xj.double() if x.is_floating_point() else xj)
+                        no = max(no, maxdiff(wj[0], rj[0]))
+                        ng = [max(g0, maxdiff(u, v)) for g0, u, v in zip(ng, wj[1], rj[1])]
+                    allow = (no, ng)
             except Exception:
-                ref = refp = None
+                ref = allow = None
         got = None
         with ctx.guard(f"C20:{name}:compile", key):
             torch._dynamo.reset()
             cm = torch.compile(copy.deepcopy(m), backend=backend)
             got = fb(cm)
         if got is not None:
-            if not rounding_close(got[0], want[0], ref[0] if ref else None, refp[0] if refp else None, dt, f32i):
+            if not rounding_close(got[0], want[0], ref[0] if ref else None, allow[0] if allow else None, dt, f32i):
                 ctx.violation(f"C20:{name}:output", "compiled module output differs from eager", key)
             for j, (a, b) in enumerate(zip(got[1], want[1])):
                 r64 = ref[1][j] if ref and j < len(ref[1]) else None
-                r64p = refp[1][j] if refp and j < len(refp[1]) else None
-                if (a is None) != (b is None) or (a is not None and not rounding_close(a, b, r64, r64p, dt, f32i)):
+                al = allow[1][j] if allow and j < len(allow[1]) else None
+                if (a is None) != (b is None) or (a is not None and not rounding_close(a, b, r64, al, dt, f32i)):
                     ctx.violation(f"C20:{name}:grad", "compiled module gradient differs from eager", key)
                     break
         # plain fx symbolic tracing: forward values
